@@ -495,7 +495,10 @@ Section Vec.
   Definition ts_vec_set (t : tvec) (i : Z) (v : A) : res (Z * tvec) :=
     if (i <? 0) || (alen t <=? i) then Throw msg_oob
     else Ok (0, upd t (Z.to_nat i) v).                                         (* t[i] = v; return 0 *)
-  (* for (let i = 0; i < a.length; i++) { if (a[i] !== b[i]) return 0; } return 1; *)
+  (* for (let i = 0; i < a.length; i++) { const x = typeof a[i] === 'boolean' ? Number(a[i]) : a[i], y = (same for b[i]);
+       if (x !== y) return 0; } return 1;
+     (since f6d99ba: a JavaScript boolean - what `!e` is emitted as - is compared as the number it stands for; the model's
+     elements are the VALUES, so aeqb is that comparison; the representation of booleans is tied by the run-time calls) *)
   Fixpoint tve_loop (fuel : nat) (a b : tvec) (i : Z) : res Z :=
     match fuel with
     | O => OutOfFuel
